@@ -28,6 +28,7 @@ THEOREMS = [
     "registry_save_load_roundtrip", "write_without_truncate_refuted",
     "amount_format_parse_roundtrip",
     "sync_counters_bounded", "sync_wrapping_refuted",
+    "cache_write_then_read", "cache_write_empty_wipes", "write_skip_empty_refuted",
     "no_panic_check_port_availability", "check_port_availability_refuses_iff", "port_availability_exclusive_refuted",
     "no_panic_try_deserialize_record", "try_deserialize_record_refuses_short", "payload_slice_first_refuted",
 ]
@@ -45,6 +46,8 @@ RULE = ("per text parser: non-ASCII inputs whose BYTE length is exactly L for L 
         "start = end, end < start and neighbours against 0-3 recorded services whose ports sit on / next to the bounds; "
         "try_deserialize_record::<T> for the 8 types used in the code base on every length 0..SIZE+2, truncations of a valid "
         "chunk record, msgpack-looking and random bytes; "
+        "cache files: write() of freshly built stores on ONE path -- populated, EMPTY, through the `first` constructor -- in every "
+        "order, load after each; "
         "registry files: save -> save -> ... -> load on ONE path over any previous content, serialised sizes growing, equal, "
         "shrinking by one byte and by a lot; "
         "per parser: empty / one-short / exact / one-long / far-too-long decoded lengths around every fixed "
@@ -454,6 +457,23 @@ def payload_cases(rng, n):
     return out
 
 
+def cache_save_sequences(rng, n):
+    """write() of freshly built stores (populated, EMPTY, the `first` constructor) over one path, load after each"""
+    def adds(k):
+        out = []
+        for _ in range(k):
+            p = peer_id(rng)
+            out.append(good_addr(rng, p)[0])
+        return out
+    shapes = [[3, 0], [1, 0, 2], [0], [0, 0], [5, "first"], ["first"], [2, "first", 1], [4, 0, "first", 0], [30, 1], [1, 30, 0], [2, 2]]
+    out = []
+    while len(out) < n:
+        sh = shapes[len(out)] if len(out) < len(shapes) else [rng.choice([0, 0, 1, 3, 12, "first"]) for _ in range(rng.choice([2, 3, 4]))]
+        out.append({"op": "cache_save_seq", "shape": [str(x) for x in sh],
+                    "steps": [({"first": True} if x == "first" else {"adds": adds(x)}) for x in sh]})
+    return out
+
+
 def registry_variants(rng):
     """registry JSON texts (formatter inputs) of many different serialised lengths, incl. neighbours differing by 1 byte"""
     base0, base1 = json.loads(REGISTRY_SEEDS[0]), json.loads(REGISTRY_SEEDS[1])
@@ -607,6 +627,8 @@ def gen(ctx, valid_pks):
             i = rng.randrange(len(b))
             b = b[:i] + bytes([rng.choice([0xff, 0xc0, 0x80])]) + b[i + 1:]
         cases.append({"op": "registry_load", "content": list(b), "fam": "mutated"})
+    # ---- cache files written repeatedly over one path (populated, then EMPTY / `first`), loaded after each write
+    cases += cache_save_sequences(rng, 24 * k)
     # ---- registry files saved repeatedly over one path (growing, equal, shrinking by one byte / by a lot), then loaded
     cases += registry_sequences(rng, 40 * k)
     # ---- record bytes: all lengths 0..4 around the 3 header bytes, every first byte class of msgpack
@@ -821,6 +843,15 @@ def oracle(c, o):
                 bad("registry-default", "missing/empty file did not give the empty registry")
         elif (o["r"] == "ok") != bool(o["parse_ok"]):
             bad("registry-accepts", "load %s but serde_json %s the text" % (o["r"], "accepts" if o["parse_ok"] else "rejects"))
+    elif op == "cache_save_seq":
+        for i, (st, r) in enumerate(zip(c["steps"], o["steps"])):
+            want = sorted(st.get("adds", []))
+            if not r["wrote"]:
+                bad("cache-save", "write #%d (%s) returned an error" % (i, c["shape"][i]))
+            elif not r["load_ok"] or r["addrs"] != want:
+                bad("cache-save-load", "after write #%d of the sequence %s on one path load_cache_data %s; the store written held %d address(es)%s" % (
+                    i, c["shape"], ("returns %d address(es)" % len(r["addrs"])) if r["load_ok"] else "fails", len(want),
+                    " (the previous content survived the write of an empty cache)" if not want and r["addrs"] else ""))
     elif op == "registry_seq":
         for i, st in enumerate(o["steps"]):
             if not st.get("parsed"):
@@ -992,6 +1023,12 @@ def model_term(c, o):
                 fk = 1
         res = 2 if o["r"] == "err" else (1 if o["nodes"] > 0 or (fk == 2 and text != "" and o["parse_ok"]) else 0)
         return "agree_registry %s %s %s %s" % (cN(fk), cstr(text) if len(text) < 3000 else cstr(text[:3000]), cbool(bool(o["parse_ok"])), cN(res))
+    if op == "cache_save_seq":
+        if "panic" in o:
+            return "false"
+        steps = ["(%s, %s)" % (clist([cstr(a) for a in sorted(st.get("adds", []))]), clist([cstr(a) for a in r["addrs"]]))
+                 for st, r in zip(c["steps"], o["steps"])]
+        return "agree_cache_saves None %s" % clist(steps)
     if op == "registry_seq":
         if "panic" in o:
             return "false"
@@ -1025,6 +1062,8 @@ def show(c, o):
 
 
 def nontrivial(c, o):
+    if c["op"] == "cache_save_seq":
+        return ("cache_save_seq", tuple(c["shape"]), "panic" in o)
     if c["op"] == "registry_seq":
         lens = [len(st.get("fmt", [])) for st in o.get("steps", [])]
         shape = tuple("g" if b > a else ("s1" if a - b == 1 else ("s" if b < a else "e")) for a, b in zip(lens, lens[1:]))
